@@ -247,15 +247,49 @@ def rnd_tree(rng, depth, u, kind=None):
 
 
 def tree_depth(t):
-  return 0 if t[0] == "lin" else 1 + max([tree_depth(c) for c in t[1]] + [0])
+  return 0 if t[0] in ("lin", "num") else 1 + max([tree_depth(c) for c in t[1]] + [0])
 
 
 def tree_mixed(t, parent=None):
   """a list of the other kind with at least two items directly inside a list"""
-  if t[0] == "lin":
+  if t[0] in ("lin", "num"):
     return False
   here = parent is not None and parent != t[0] and len(t[1]) >= 2
   return here or any(tree_mixed(c, t[0]) for c in t[1])
+
+
+def coincide_tree(rng, leaf, scalar):
+  """cascades / banks with COINCIDENCES: the same filter built twice (equal but distinct objects), one object held
+  several times, equal members at different nesting depths, scalar members (cast to LinearFilter by the list),
+  lists built by repetition / concatenation / from an iterable, copy-constructed leaves.
+  leaf() -> [b, a] coefficient lists (JSON form), scalar() -> one coefficient (JSON form)"""
+  def lin(ba, **opts):
+    return ["lin", list(ba[0]), list(ba[1]), dict(opts)]
+  base, other = leaf(), leaf()
+  outer = rng.choice(["cas", "par"])
+  inner = rng.choice(["cas", "par"])
+  k = rng.choice([2, 2, 3, 4])
+  mode = rng.choice(["equal-distinct", "same-object", "both", "depth", "scalars", "times", "cast", "depth-shared"])
+  if mode == "equal-distinct":
+    kids = [lin(base) for _ in range(k)] + ([lin(other)] if rng.random() < 0.5 else [])
+  elif mode == "same-object":
+    kids = [lin(base, sid=0) for _ in range(k)] + ([lin(other)] if rng.random() < 0.5 else [])
+  elif mode == "both":
+    kids = [lin(base, sid=0), lin(base), lin(base, sid=0), lin(other), lin(base)]
+  elif mode == "depth":
+    kids = [lin(base), [inner, [lin(base), lin(other), lin(base)]], lin(base)]
+  elif mode == "depth-shared":
+    kids = [lin(base, sid=0), [inner, [lin(base, sid=0), [outer, [lin(base, sid=0), lin(other)]]]], lin(other, sid=1),
+            lin(other, sid=1)]
+  elif mode == "scalars":
+    c = scalar()
+    kids = [["num", c], lin(base), ["num", c]] + ([["num", scalar()]] if rng.random() < 0.4 else [])
+  elif mode == "cast":
+    kids = [lin(base, via="cast"), lin(base, via="cast", sid=0), lin(base, sid=0)]
+  else:
+    return [outer, [lin(base), lin(other)], {"style": "times", "n": k}], mode
+  rng.shuffle(kids)
+  return [outer, kids, {"style": rng.choice(["star", "star", "iter", "concat"])}], mode
 
 
 def gen_tree(tier, rng):
@@ -270,18 +304,64 @@ def gen_tree(tier, rng):
                   [o, [[i, [[i, [A, B]], [o, [B, Cc]]]]]]]
         for t in shapes:
           yield {"tree": t, "u": cj(u), "tags": ["exh", "outer=%s" % o, "inner=%s" % i]}
-  n = 180 if tier == "quick" else 3000
+  for _ in range(120 if tier == "quick" else 1500):
+    u = rnd_point(rng)
+    def leaf():
+      t = rnd_leaf(rng, u)
+      while not any(x[0] or x[2] for x in t[2]):
+        t = rnd_leaf(rng, u)
+      return [t[1], t[2]]
+    t, mode = coincide_tree(rng, leaf, lambda: cj(rnd_coeff(rng, p_zero=0.1)))
+    yield {"tree": t, "u": cj(u), "tags": ["coincide", mode]}
+  n = 150 if tier == "quick" else 3000
   for _ in range(n):
     u = rnd_point(rng)
     t = rnd_tree(rng, 3, u)
     yield {"tree": t, "u": cj(u), "tags": ["random", "depth=%d" % tree_depth(t), "mixed" if tree_mixed(t) else "unmixed"]}
 
 
-def build_tree(t, conv):
-  from audiolazy import ZFilter, CascadeFilter, ParallelFilter
+def tree_norm(t, one):
+  """plain value of a tree description: scalar members are LinearFilter(c) = c / 1 (FilterList.callables casts
+  what is not callable), a list written with style "times" holds its items n times; sharing marks are dropped"""
+  if t[0] == "num":
+    return ["lin", [t[1]], [one]]
   if t[0] == "lin":
-    return ZFilter([conv(x) for x in t[1]], [conv(x) for x in t[2]])
-  return (CascadeFilter if t[0] == "cas" else ParallelFilter)(*[build_tree(c, conv) for c in t[1]])
+    return ["lin", t[1], t[2]]
+  opts = t[2] if len(t) > 2 else {}
+  kids = [tree_norm(c, one) for c in t[1]]
+  return [t[0], kids * opts.get("n", 1) if opts.get("style") == "times" else kids]
+
+
+def build_tree(t, conv, memo=None):
+  """builds the Python object.  Options: {"sid": k} on a leaf - leaves with the same sid are ONE object (any other two
+  leaves are separately built, even when equal); {"via": "cast"} - ZFilter(ZFilter(b, a)) (copy constructor);
+  list styles "star" cls(*items), "iter" cls([items]), "concat" cls(*head) + cls(*tail), "times" cls(*items) * n"""
+  from audiolazy import ZFilter, CascadeFilter, ParallelFilter
+  memo = {} if memo is None else memo
+  if t[0] == "num":
+    return conv(t[1])
+  if t[0] == "lin":
+    opts = t[3] if len(t) > 3 else {}
+    if "sid" in opts and opts["sid"] in memo:
+      return memo[opts["sid"]]
+    f = ZFilter([conv(x) for x in t[1]], [conv(x) for x in t[2]])
+    if opts.get("via") == "cast":
+      f = ZFilter(f)
+    if "sid" in opts:
+      memo[opts["sid"]] = f
+    return f
+  cls = CascadeFilter if t[0] == "cas" else ParallelFilter
+  opts = t[2] if len(t) > 2 else {}
+  items = [build_tree(c, conv, memo) for c in t[1]]
+  style = opts.get("style", "star")
+  if style == "iter":
+    return cls(items)
+  if style == "concat":
+    h = len(items) // 2
+    return cls(*items[:h]) + cls(*items[h:])
+  if style == "times":
+    return cls(*items) * opts.get("n", 1)
+  return cls(*items)
 
 
 def run_tree(c):
@@ -294,6 +374,7 @@ def run_tree(c):
 
 
 def tree_lit(t):
+  t = tree_norm(t, cj(CQ(1)))
   if t[0] == "lin":
     return "(TLin %s %s)" % (cqlist(t[1]), cqlist(t[2]))
   return "(%s %s)" % ("TCas" if t[0] == "cas" else "TPar", L.lst([tree_lit(c) for c in t[1]]))
@@ -305,7 +386,7 @@ def lit_tree(c, o):
 
 
 def nontrivial_tree(c, o):
-  return tree_mixed(c["tree"]) and cqv(c["u"]) not in (CQ(1), CQ(-1))
+  return ("coincide" in c["tags"] or tree_mixed(c["tree"])) and cqv(c["u"]) not in (CQ(1), CQ(-1))
 
 
 # ------------------------------------------------------------------ family kind
